@@ -19,6 +19,8 @@ ALPH = {
     "dec01": alphabet(prices=(0.25, 0.3, 0.35, 1.15, 1.25), vols=(1, 2), ttls=(None,), mttls=(None,), dead=(), cancels=2),
     # tick 1e-5 at the price level of the shipped samples: adjacent levels and a mid-tick price
     "fine": alphabet(prices=(299.99999, 300.0, 300.000005, 300.00001), vols=(1, 2), ttls=(None,), mttls=(None,), dead=(), cancels=2),
+    "quick_xc": alphabet() + [("XC",)],
+    "reduced_xc": alphabet(vols=(1,), mvols=(1,), ttls=(None,), mttls=(None,), dead=(), cancels=2) + [("XC",)],
     "low": alphabet(prices=(0.4, 1, 2), vols=(1, 2), ttls=(None,), mttls=(None,), dead=(), cancels=2),
 }
 SEEDS_Q = ["two_sided_no_trade", "quoted_while_off", "deep", "ladder_buy", "ladder_sell", "partial", "crossed_off", "crossed_tie", "crossed_flip", "crossed_flip_mirror", "mo_one", "mo_both",
@@ -41,6 +43,9 @@ def plan(tier, d0=None, dseed=None):
         for s in KEY_SEEDS:
             p.append((s, "free", dseed + 1, "quick"))
         for mode in ("cont", "free"):
+            p.append(("index", mode, dseed, "quick_xc"))
+            p.append(("index_component_stopped", mode, dseed, "quick_xc"))
+            p.append(("index", mode, dseed + 1, "reduced_xc"))
             p.append(("empty", mode, d0, "low"))
             p.append(("empty", mode, d0 - 1, "rich"))
             p.append(("empty", mode, d0 - 1, "extreme"))
@@ -57,6 +62,10 @@ def plan(tier, d0=None, dseed=None):
             p.append(("empty", mode, d0 - 1, "extreme"))
             p.append(("tick01", mode, d0 - 1, "dec01"))
             p.append(("tick1e5", mode, d0 - 1, "fine"))
+        for mode in ("cont", "free"):
+            p.append(("index", mode, dseed, "quick_xc"))
+            p.append(("index_component_stopped", mode, dseed, "quick_xc"))
+            p.append(("index", mode, dseed + 1, "reduced_xc"))
         for s in SEEDS_Q:
             for mode in ("cont", "free"):
                 p.append((s, mode, dseed, "half" if s == "halftick" else "quick"))
